@@ -53,7 +53,12 @@ func newClientCxn(l lane.Lane, cxn net.Conn, dispatcher *cmdDispatcher, onExit f
 		csceCh:      make(chan *clientStateEvent, 3),
 	}
 
+	// newClientState publishes the client in the client table: from then on another
+	// client's CLIENT KILL (or the termination) can call RequestClose, which looks at
+	// cc.cs under cc.mu - so the field is assigned under that lock
+	cc.mu.Lock()
 	cc.cs = newClientState(l, cc, dispatcher)
+	cc.mu.Unlock()
 
 	cc.queueStateChange(csInitialize, nil)
 
